@@ -86,13 +86,27 @@ type Drawn struct {
 
 var cur *Tape
 
+// Dispatch, when set and returning non-nil, selects the tape of the calling
+// managed thread (per-thread tapes under the controlled scheduler).
+var Dispatch func() *Tape
+
+func current() *Tape {
+	if Dispatch != nil {
+		if t := Dispatch(); t != nil {
+			return t
+		}
+	}
+	return cur
+}
+
 type globalReader struct{}
 
 func (globalReader) Read(p []byte) (int, error) {
-	if cur == nil {
+	t := current()
+	if t == nil {
 		panic("verif: crypto/rand read with no tape installed")
 	}
-	return cur.Read(p)
+	return t.Read(p)
 }
 
 var installed bool
@@ -104,16 +118,16 @@ func Install(t *Tape) {
 		osReader = rand.Reader
 		rand.Reader = globalReader{}
 		spg.VerifDrawHook = func(n uint32) {
-			if cur != nil {
-				cur.Announce(n)
+			if t := current(); t != nil {
+				t.Announce(n)
 			}
 		}
 		spg.VerifCanonHook = func(size int) {
-			if cur != nil {
-				if cur.CanonSeen == 0 {
-					cur.WordsBeforeCanon = cur.Words
+			if t := current(); t != nil {
+				if t.CanonSeen == 0 {
+					t.WordsBeforeCanon = t.Words
 				}
-				cur.CanonSeen++
+				t.CanonSeen++
 			}
 		}
 		installed = true
